@@ -15,6 +15,7 @@ import (
 	"runtime"
 	"sort"
 	"sync"
+	"time"
 
 	"github.com/robfig/soy/data"
 	"github.com/robfig/soy/soyhtml"
@@ -57,9 +58,20 @@ func Run(ctx *core.Ctx) {
 	e.add(builtin)
 	sites := siteUnits()
 	for i, u := range sites {
-		u.M3 = i%5 == 0
+		u.M3 = i%8 == 0
 	}
 	e.add(sites)
+	// M1 over the harness's own families (every program x every plan) runs
+	// next to the enumeration as well: it needs the programs only
+	var fam []*Unit
+	for i, u := range sites {
+		if ctx.Thorough() || i%8 == 0 {
+			fam = append(fam, u)
+		}
+	}
+	var wg sync.WaitGroup
+	wg.Add(1)
+	go func() { defer wg.Done(); modelOnFamilies(ctx, fam, "sites") }()
 	e.add(srcUnits())
 	e.add(longUnits())
 	fu, err := featureUnits()
@@ -69,8 +81,8 @@ func Run(ctx *core.Ctx) {
 	e.add(fu)
 
 	// seeded random bundles until the budget of fault points is used
-	target := ctx.Pick(70000, 1700000)
-	m3n := ctx.Pick(120, 4000)
+	target := ctx.Pick(100000, 2400000)
+	m3n := ctx.Pick(80, 4000)
 	rng := rand.New(rand.NewSource(ctx.Seed))
 	gi := 0
 	for e.pointsOf["proggen"] < target && gi < 200000 {
@@ -84,28 +96,21 @@ func Run(ctx *core.Ctx) {
 		e.add(chunk)
 	}
 
-	e.enumerate()
-	e.report()
-
-	// M1 over the harness's own families (every program x every plan) and
-	// M3, side by side
-	var fam []*Unit
-	for i, u := range sites {
-		if ctx.Thorough() || i%8 == 0 {
-			fam = append(fam, u)
-		}
-	}
 	var pg []*Unit
 	for _, u := range e.units {
 		if u.Family == "proggen" && len(pg) < ctx.Pick(0, 1000) {
 			pg = append(pg, u)
 		}
 	}
-	var wg sync.WaitGroup
-	wg.Add(3)
-	go func() { defer wg.Done(); modelOnFamilies(ctx, fam, "sites") }()
+	wg.Add(1)
 	go func() { defer wg.Done(); modelOnFamilies(ctx, pg, "proggen") }()
-	go func() { defer wg.Done(); validateAgainstModel(ctx, e.units, e.results) }()
+
+	t0 := time.Now()
+	e.enumerate()
+	setExtra(ctx, "enumeration_wall_s", time.Since(t0).Seconds())
+	e.report()
+
+	validateAgainstModel(ctx, e.units, e.results)
 	wg.Wait()
 	m1.Wait()
 
@@ -241,7 +246,7 @@ func (e *engine) report() {
 	bySite := map[string]int{}
 	byKind := map[string]int{}
 	bySig := map[string]int{}
-	var writes, bytesOut, healthy int
+	var writes, bytesOut, healthy, snRuns, snNil int
 	samples := 0
 	unstable := e.unstable
 	for i, u := range e.units {
@@ -260,6 +265,8 @@ func (e *engine) report() {
 		fs.NotReached += r.notReached
 		fs.Violations += len(r.violations)
 		healthy += r.healthy
+		snRuns += r.shortNilRuns
+		snNil += r.shortNilReturnedNil
 		ctx.AddEvals(int64(r.renders))
 		for s, n := range r.bySite {
 			bySite[s] += n
@@ -300,6 +307,9 @@ func (e *engine) report() {
 	ctx.Extra["violations_by_feature"] = bySig
 	ctx.Extra["templates"] = len(e.units)
 	ctx.Extra["healthy_writer_renders_interleaved"] = healthy
+	ctx.Extra["not_judged_contract_breaking_writer_short_count_nil_error"] = map[string]interface{}{
+		"renders": snRuns, "render_returned_nil": snNil,
+		"why": "io.Writer requires a non-nil error with n < len(p); the property's quantifier speaks of write failures (errors), so whether clause 3 covers such a writer is open - observed only"}
 	ctx.Extra["fault_free_write_calls_total"] = writes
 	ctx.Extra["fault_free_bytes_total"] = bytesOut
 	ctx.Extra["duplicate_templates_dropped"] = e.dups
